@@ -256,7 +256,9 @@ class Runner(object):
                     while self.script and self.script[0]['op'] in ('start',):
                         self.script.pop(0)
                     if not self.script:
-                        break
+                        # the scripted prefix is done: the rest of the run follows the case's policy
+                        self.script = None
+                        continue
                     o = self.script[0]
                     if o['op'] == 'rerun':
                         self.script.pop(0)
